@@ -711,6 +711,9 @@ class Body:
                 info['b_op'] = tr['b']
             else:
                 info['kind'] = 'bool'
+                pred = self._predicate_helper(tr) if tr.get('kind') == 'call' else None
+                if pred is not None:
+                    info.update(pred)
         elif tr.get('kind') == 'discr':
             info['kind'] = 'discr'
             info['place'] = tr['place']
@@ -719,6 +722,37 @@ class Body:
         else:
             info['kind'] = 'int'
         return info
+
+    def _predicate_helper(self, tr):
+        """`if at_limit(len)` with `const fn at_limit(n: usize) -> bool { n >= MAX }`: a call of a small function of the crate that returns
+        one comparison of its parameters / constants reads as that comparison on the arguments"""
+        c = tr.get('callee') or {}
+        if not c.get('local'):
+            return None
+        hb = self.crate.by_path.get(c.get('resolved') or c.get('def') or '')
+        if hb is None or hb.n > 4 or hb.is_coroutine:
+            return None
+        rets = [s for b, i, s in hb.iter_assigns() if s['place']['l'] == 0 and not s['place'].get('p')]
+        if len(rets) != 1:
+            return None
+        rv = rets[0]['rv']
+        t = {'kind': 'bin', 'op': rv.get('op'), 'a': rv.get('a'), 'b': rv.get('b')} if rv['k'] == 'bin' else hb.trace(rv['op']) if rv['k'] == 'use' else None
+        if not t or t.get('kind') != 'bin' or t.get('op') not in ('Eq', 'Ne', 'Lt', 'Le', 'Gt', 'Ge'):
+            return None
+
+        def side(op):
+            tt = hb.trace(op)
+            if tt.get('kind') == 'arg' and 1 <= tt['l'] <= len(tr.get('args') or []):
+                o = tr['args'][tt['l'] - 1]
+                return self.trace(o), o
+            if tt.get('kind') == 'const':
+                return tt, op
+            return None, None
+        a, a_op = side(t['a'])
+        b, b_op = side(t['b'])
+        if a is None or b is None:
+            return None
+        return {'kind': 'cmp', 'op': t['op'], 'a': a, 'b': b, 'a_op': a_op, 'b_op': b_op, 'via_helper': hb.path}
 
     # ---- liveness of locals (for coroutine-state rules)
     def liveness(self):
